@@ -5,6 +5,7 @@ Confirms, in the scratch worktree: change applied -> existing tests pass and dem
 change reverted -> demo passes. Then files it under /verif/seeded/<seed id>/."""
 import json, os, shutil, subprocess, sys
 work, sid, prop, needs = sys.argv[1:5]
+demo_flags = sys.argv[5] if len(sys.argv) > 5 else ""   # e.g. "--release" for a configuration-dependent demo
 wt, out = os.path.join(work, "wt"), os.path.join(work, "out")
 env = dict(os.environ, CARGO_NET_OFFLINE="true", CARGO_TARGET_DIR=os.path.join(work, "target"))
 def run(cmd, cwd=wt):
@@ -25,10 +26,10 @@ rc, o = run(f"git apply {out}/patch.diff")
 assert rc == 0, o
 good = step("existing tests pass with the change", "cargo test --offline", True)
 shutil.copy(os.path.join(out, "demo.rs"), os.path.join(wt, "tests", "seed_demo.rs"))
-good &= step("demo fails with the change", "cargo test --offline --test seed_demo", False)
+good &= step("demo fails with the change", f"cargo test --offline {demo_flags} --test seed_demo".replace("  ", " "), False)
 rc, o = run(f"git apply -R {out}/patch.diff")
 assert rc == 0, o
-good &= step("demo passes without the change", "cargo test --offline --test seed_demo", True)
+good &= step("demo passes without the change", f"cargo test --offline {demo_flags} --test seed_demo".replace("  ", " "), True)
 os.remove(os.path.join(wt, "tests", "seed_demo.rs"))
 if not good:
     sys.exit(1)
@@ -38,6 +39,6 @@ for f in ("patch.diff", "demo.rs", "notes.md"):
     if os.path.exists(os.path.join(out, f)):
         shutil.copy(os.path.join(out, f), os.path.join(dst, f))
 json.dump({"id": sid, "breaks": [prop], "needs_to_manifest": needs, "author": "independent sub-agent given only the property text and a scratch worktree",
-           "confirmed_in_scratch_worktree": ran, "demo": "demo.rs (copied to tests/seed_demo.rs; cargo test --offline --test seed_demo)"},
+           "confirmed_in_scratch_worktree": ran, "demo": f"demo.rs (copied to tests/seed_demo.rs; cargo test --offline {demo_flags} --test seed_demo)"},
           open(os.path.join(dst, "meta.json"), "w"), indent=1)
 print("filed under", dst)
